@@ -1497,7 +1497,11 @@ theorem readInfo'_sim (cfg : Cfg) (t : TCfg) {a b : R} (h : Sim a b) :
                 rw [hio2]
                 cases infoOf a2 with
                 | none => exact ⟨rfl, ⟨rfl, hu2⟩⟩
-                | some i2 => exact ⟨rfl, ⟨rfl, hu2⟩⟩
+                | some i2 =>
+                  simp only
+                  cases sizeFits (t.outColorDepth i2 a2.flags) i.width i.height with
+                  | true => exact ⟨rfl, ⟨rfl, hu2⟩⟩
+                  | false => exact ⟨rfl, ⟨rfl, hu2⟩⟩
 
 theorem readInfo_sim (cfg : Cfg) (t : TCfg) {a b : R} (h : Sim a b) :
     OutSim (readInfo cfg t a) (readInfo cfg t b) := by
